@@ -4,7 +4,7 @@
 From Coq Require Import List NArith ZArith Arith Bool Permutation.
 From RareV Require Import Base.Hex Base.Res Model.Lines Model.Batch Model.Pipeline Model.Ctx Model.Color Model.Extract
   Proofs.PipelineProof Proofs.PipelineEnd Proofs.PipelineOrder Proofs.ExtractProof Proofs.MatchFields Proofs.CtxProof
-  Proofs.LinesMain Gen.GenColor.
+  Proofs.LinesMain Gen.GenColor Model.Skel Gen.GenSkel.
 Import ListNotations.
 
 (* every consumed match is (source, true 1-based number, unmodified text) of a line of that input,
@@ -65,3 +65,12 @@ Example C02_example_groups :
   get_match [97;98;99;100]%N [0;4;1;3;-1;-1]%Z 2 = Ok [] /\
   wrap_indices GroupColors Reset [97;98;99;100]%N [1;3;-1;-1]%Z = Ok [97;27;91;51;49;109;98;99;27;91;48;109;100]%N.
 Proof. vm_compute. auto. Qed.
+
+(* translator obligation (see C01_skeleton): the line number and source a match carries are computed
+   the way Model/Extract.v and Batch.v assume — batches are sent as {batch, sourceName, batchStart},
+   batchStart starts at 1 and advances by the batch length, the worker passes
+   (batch.Source, batch.BatchStart + idx, line) to processLineSync and collects one batch's matches
+   in a fresh slice *)
+Theorem C02_numbering_skeleton :
+  sync_reader_ok skel_sync_reader && sync_reader_ok skel_sync_reader_flush && async_worker_ok skel_async_worker = true.
+Proof. vm_compute. reflexivity. Qed.
